@@ -2088,7 +2088,8 @@ def run(ck: core.Check):
     if ck.thorough:  # every hand-written module the property theorems rest on
         ck.leanchecker(["SpoxModel.Props.C19", "SpoxModel.Lemmas.Subgraph", "SpoxModel.Lemmas.SubgraphNested",
                         "SpoxModel.Model.Subgraph", "SpoxModel.Model.SubgraphNested", "SpoxModel.Model.SubgraphSpec",
-                        "SpoxModel.Model.CallForm", "SpoxModel.Model.CallGraph"])
+                        "SpoxModel.Model.CallForm", "SpoxModel.Model.CallGraph",
+                        "SpoxModel.Model.SubgraphNames", "SpoxModel.Lemmas.SubgraphNames"])
 
     env = Env()
     install_spy(env)
@@ -2194,6 +2195,13 @@ def _run(ck: core.Check, env: Env, info):
     nstats = run_nested(ck, env)
     # ---- the documented-internal entry point itself: subgraph(types, fun)
     run_direct(ck, env)
+    # round 10: the name glue of subgraph() (enum_arguments / enum_results), model `Model/SubgraphNames.lean`
+    try:
+        from harness import lib_c19names
+
+        lib_c19names.run(ck, env)
+    except Exception as e:  # noqa: BLE001
+        ck.broken("correspondence", "C19 name-glue facet", f"{type(e).__name__}: {e}\n{core.fmt_exc()[-400:]}")
     # ---- onnxruntime: bodies that use their arguments
     n_ort = 0
     jobs = []
@@ -2271,6 +2279,10 @@ def replay(ck: core.Check, doc) -> bool:
             print(("* " if mine else "  ") + f"{k}: {what}")
             hit = hit or mine
         return hit
+    if case.get("kind") in ("names", "names-loop", "dummy"):
+        from harness import lib_c19names
+
+        return lib_c19names.replay(env, case, key, known)
     if case.get("kind") == "nested":
         import sys
 
